@@ -1386,7 +1386,7 @@ fn toward_faults(rng: &mut Rng, s: &SizeInfo, in_radius: bool, faults: &mut Vec<
 /// same values) in two or more blocks, so that their syndrome vectors are IDENTICAL - what a physical burst of
 /// a uniform kind does to an interleaved symbol - optionally with one block differing in a single value, a
 /// missing or an additional error. Within the radius.
-fn twin_block_faults(rng: &mut Rng, s: &SizeInfo, faults: &mut Vec<Fault>) -> bool {
+fn twin_block_faults(ctx: &Ctx, rng: &mut Rng, s: &SizeInfo, faults: &mut Vec<Fault>) -> bool {
     if s.blocks < 2 {
         return false;
     }
@@ -1409,9 +1409,24 @@ fn twin_block_faults(rng: &mut Rng, s: &SizeInfo, faults: &mut Vec<Fault>) -> bo
         }
     };
     let odd_one = if rng.chance(1, 3) { Some(*rng.pick(&group)) } else { None };
+    // proportional instead of identical: every block's error values are the common ones times a per-block field
+    // constant (1, alpha, alpha^-1, alpha^2 or arbitrary), so the syndrome vectors are proportional and a linear
+    // combination of the blocks can cancel
+    let proportional = rng.chance(1, 3);
     for b in group {
         let pos = s.block_positions(b);
-        let mut list: Vec<(usize, u8)> = degs.iter().zip(masks.iter()).map(|(d, m)| (pos[pos.len() - 1 - *d], *m)).collect();
+        let scale: u8 = if proportional {
+            match rng.below(6) {
+                0 => 1,
+                1 | 2 => 2,
+                3 => ctx.gf.inv(2),
+                4 => 4,
+                _ => rng.nonzero_byte(),
+            }
+        } else {
+            1
+        };
+        let mut list: Vec<(usize, u8)> = degs.iter().zip(masks.iter()).map(|(d, m)| (pos[pos.len() - 1 - *d], ctx.gf.mul(*m, scale))).collect();
         if odd_one == Some(b) {
             match rng.below(3) {
                 0 => {
@@ -2504,7 +2519,7 @@ fn gen_c03_faults(ctx: &Ctx, rng: &mut Rng, s: &SizeInfo, faults_out: &mut Vec<F
                 }
             }
             _ => {
-                if !twin_block_faults(rng, s, &mut faults) && !toward_faults(rng, s, true, &mut faults) {
+                if !twin_block_faults(ctx, rng, s, &mut faults) && !toward_faults(rng, s, true, &mut faults) {
                     burst_faults(rng, s, Some(s.t()), &mut faults)
                 }
             }
@@ -2722,6 +2737,11 @@ fn gen_c08(ctx: &Ctx, rng: &mut Rng, i: u64) -> Trace {
         for p in 0..s.n_total() {
             faults.push(Fault::new("cw_replace", Op::CwSet { pos: p as u32, val: constant.unwrap_or_else(|| rng.byte()) }));
         }
+    }
+    if rng.chance(1, 10) {
+        // the caller hands the renderer a buffer longer than the symbol needs
+        let n = *rng.pick(&[1u32, 2, 3, 4, 8, 100, 300, 2000]);
+        faults.push(Fault::new("snd_surplus", Op::CwSurplus { n, val: rng.byte() }));
     }
     match scenario {
         0..=9 => {} // forward direction only
